@@ -42,6 +42,7 @@ def parseTy (s : String) : Option Ty :=
   | "optu32" => some (.option .u32)
   | "optuser" => some (.option (.user "u32" (some 4)))
   | "tupf" => some (.tuple2 .u64 .u32)
+  | "tupuser" => some (.tuple2 .u64 (.user "u32" (some 4)))
   | "tupv" => some (.tuple2 .u64 .bytes)
   | "arr4" => some (.array .u8 4)
   | "arr4r" => some (.bytesRef 4)
